@@ -162,7 +162,8 @@ pub fn check_case(case: &Case) -> (Vec<Violation>, CaseStats) {
     }
 
     // oracle E (nothing at all is held back after an unchanged line): at quiescence points of run A
-    // whose last delivered line is an unchanged hunk line, what has been written equals — not just
+    // whose last delivered line is an unchanged hunk line (or the `\ No newline at end of file`
+    // marker of an unchanged line: not a removed or added line, so it may not wait either), what has been written equals — not just
     // prefixes — what delta writes for exactly those lines followed by EOF.  This covers output
     // that carries no token: file and hunk headers, commit and diffstat lines, wrapped continuation
     // lines, decorations.
@@ -174,7 +175,7 @@ pub fn check_case(case: &Case) -> (Vec<Violation>, CaseStats) {
             while ((j + 1) as usize) < case.lines.len() && t.line_end[(j + 1) as usize] <= q.delivered {
                 j += 1;
             }
-            if j >= 0 && t.line_end[j as usize] == q.delivered && case.lines[j as usize].kind == LineKind::Context && q.delivered < data.len() {
+            if j >= 0 && t.line_end[j as usize] == q.delivered && (case.lines[j as usize].kind == LineKind::Context || (j >= 1 && case.lines[j as usize].kind == LineKind::NoNewline && case.lines[(j - 1) as usize].kind == LineKind::Context)) && q.delivered < data.len() {
                 cands.push(qi);
             }
         }
